@@ -192,7 +192,7 @@ class F:
 
             visit_ListComp = visit_SetComp = visit_DictComp = visit_GeneratorExp = _comp
 
-        return ast.fix_missing_locations(T(idx, depth).visit(copy.deepcopy(e)))
+        return ast.fix_missing_locations(M.canon_idioms(T(idx, depth).visit(copy.deepcopy(e))))
 
     def alias_root(self, idx: int, e: ast.AST) -> str:
         """follow `a = b` chains (unique reaching definitions that are plain names) from the name used at node idx"""
